@@ -10,6 +10,10 @@
 //	    a shipped code object; every symbol that could name a kernel is loaded,
 //	    plus "" and two names that are not kernels.
 //
+//	{"id":..,"session":[steps]}
+//	    a history of loads through reused image buffers in one process: see
+//	    session.go.
+//
 // For every job the file is first summarised with debug/elf (section table,
 // symbol table, bytes of .text/.rodata: nothing about kernels) -> "File" line;
 // then every load is one "Load" line with all observable fields of the
@@ -49,6 +53,8 @@ type Job struct {
 	File  *AbsFile  `json:"file,omitempty"`
 	Gap   int       `json:"gap,omitempty"`
 	Loads []LoadReq `json:"loads,omitempty"`
+	// a history of loads through reused buffers in one process (session.go)
+	Session []Step `json:"session,omitempty"`
 }
 
 type rec map[string]interface{}
@@ -212,6 +218,12 @@ func (c *child) load(img []byte, path string, l LoadReq) (r rec) {
 }
 
 func (c *child) runJob(ji int, j *Job, fromLoad int, skipFile bool) error {
+	if len(j.Session) > 0 {
+		if fromLoad > 0 { // the loader ended the process inside this session: its buffers and results are gone
+			return nil
+		}
+		return c.runSession(ji, j)
+	}
 	var img []byte
 	var err error
 	if j.Path != "" {
@@ -235,7 +247,7 @@ func (c *child) runJob(ji int, j *Job, fromLoad int, skipFile bool) error {
 		loads = autoLoads(sum)
 	}
 	for li := fromLoad; li < len(loads); li++ {
-		fmt.Fprintf(c.ctl, "P %d %d %d %s\n", ji, li, c.off, loads[li].Name)
+		fmt.Fprintf(c.ctl, "P %d %d %d %d %s\n", ji, li, c.off, 0, loads[li].Name)
 		c.ctl.Flush()
 		r := c.load(img, j.Path, loads[li])
 		r["id"] = j.ID
@@ -266,6 +278,7 @@ func childMain(jobsPath, outPath string, fromJob, fromLoad int, skipFile bool, f
 	rd := bufio.NewReaderSize(jf, 1<<20)
 	ji := fromJob - 1
 	off := fromOff
+	done := 0
 	for {
 		line, rerr := rd.ReadBytes('\n')
 		if len(bytes.TrimSpace(line)) > 0 {
@@ -280,10 +293,24 @@ func childMain(jobsPath, outPath string, fromJob, fromLoad int, skipFile bool, f
 				fl, sk = fromLoad, skipFile
 			}
 			c.off = off
+			// a session gets a process of its own: whatever the loader keeps between calls then stems from
+			// this session alone, and the session's trace replays on its own
+			if (len(j.Session) > 0 && done > 0) || done >= 1<<20 {
+				c.out.Flush()
+				of.Close()
+				fmt.Fprintf(c.ctl, "R %d %d %d %d %d\n", ji, off, c.loads, c.events, c.panics)
+				c.ctl.Flush()
+				os.RemoveAll(tmp)
+				os.Exit(0)
+			}
 			if err := c.runJob(ji, &j, fl, sk); err != nil {
 				fmt.Fprintln(os.Stderr, err)
 				os.RemoveAll(tmp)
 				os.Exit(3)
+			}
+			done++
+			if len(j.Session) > 0 {
+				done = 1 << 20 // whatever follows starts in a new process as well
 			}
 		}
 		off += int64(len(line))
@@ -332,6 +359,15 @@ func main() {
 				np++
 			}
 		}
+		if err == nil && strings.HasPrefix(last, "R ") { // the child asks for a fresh process at job rj
+			var rj, a, b, c int
+			var ro int64
+			fmt.Sscanf(last, "R %d %d %d %d %d", &rj, &ro, &a, &b, &c)
+			loads, events, panics = loads+a, events+b, panics+c
+			fj, fl, sk, fo = rj, 0, 0, ro
+			restarts++
+			continue
+		}
 		if err == nil && strings.HasPrefix(last, "D ") {
 			var a, b, c int
 			fmt.Sscanf(last, "D %d %d %d", &a, &b, &c)
@@ -344,12 +380,12 @@ func main() {
 			os.Exit(2)
 		}
 		// the loader ended the process (log.Fatal) during the load announced last
-		var pj, pl int
+		var pj, pl, pb int
 		var po int64
-		fmt.Sscanf(last, "P %d %d %d", &pj, &pl, &po)
+		fmt.Sscanf(last, "P %d %d %d %d", &pj, &pl, &po, &pb)
 		name := ""
-		if parts := strings.SplitN(last, " ", 5); len(parts) == 5 {
-			name = parts[4]
+		if parts := strings.SplitN(last, " ", 6); len(parts) == 6 {
+			name = parts[5]
 		}
 		msg := strings.TrimSpace(se.String())
 		if i := strings.LastIndex(msg, "\n"); i >= 0 {
@@ -363,7 +399,7 @@ func main() {
 			fmt.Fprintln(os.Stderr, oerr)
 			os.Exit(2)
 		}
-		b, _ := json.Marshal(rec{"e": "Fatal", "name": name, "exit": ee.ExitCode(), "msg": msg})
+		b, _ := json.Marshal(rec{"e": "Fatal", "name": name, "buf": pb, "exit": ee.ExitCode(), "msg": msg})
 		of.Write(append(b, '\n'))
 		of.Close()
 		fatals++
